@@ -1,6 +1,7 @@
 """C05 — index and point selection return the stored values, complete and in order."""
 from __future__ import annotations
 
+import random
 from fractions import Fraction
 
 import numpy as np
@@ -9,6 +10,7 @@ import shapely
 
 from harness import util
 from harness.gen import c05_extra as H
+from harness.gen import c05_extra6 as X6          # [strengthen-6] structured request lists; datasets sharing a source file
 from harness.gen import datasets as G
 from harness.gen import geomspec as S
 from harness.props.c02 import arr_str, grids_spec, native
@@ -20,6 +22,13 @@ REQUIRED = ['Ems.C05.select_vars', 'Ems.C05.select_vars_order', 'Ems.C05.select_
             'Ems.C05.mixed_kinds_refused', 'Ems.C05.out_of_range_refused', 'Ems.C05.select_result',
             'Ems.C05.policy_error', 'Ems.C05.policy_drop', 'Ems.C05.policy_fill',
             'Ems.C05.lookupPoints_spec', 'Ems.C05.points_error_end_to_end', 'Ems.C05.points_drop_end_to_end']
+EXTRA_MODULES = globals().get('EXTRA_MODULES', []) + ['EmsModel.Props.C05More']   # B6
+REQUIRED += ['Ems.C05.select_points_compose', 'Ems.C05.policies_agree', 'Ems.C05.select_points_all_hit',
+             'Ems.C05.points_select_end_to_end', 'Ems.C05.drop_then_fill_consistent', 'Ems.C05.drop_labels_fit']
+EXTRA_MODULES = globals().get('EXTRA_MODULES', []) + ['EmsModel.Props.C05Src']   # B8: harness/trans_selectsrc.py
+REQUIRED += ['Ems.C05.selector_src_spec', 'Ems.C05.selector_src_columns', 'Ems.C05.select_indexes_src_spec',
+             'Ems.C05.select_indexes_src_keep_geometry', 'Ems.C05.drop_geometry_src_spec', 'Ems.C05.select_index_src_spec',
+             'Ems.C05.select_point_src_spec', 'Ems.C05.select_src_no_complaints']
 RULE = ('datasets of every convention with tagged variables (floats with missing values, ints without fill, ints with '
         '_FillValue / missing_value) on every grid kind and on no grid, 0-2 extra dimensions, random dimension order. '
         '(a) select_indexes with index lists of length 1-5 with repeats and arbitrary order, mixed kinds, empty list, '
@@ -40,6 +49,24 @@ RULE = ('datasets of every convention with tagged variables (floats with missing
         'answers are not judged; every selection after them is judged as on a dataset nobody asked anything of: '
         'select_point, extract_points / select_points and extract_dataframe return exactly the face variables with the '
         'stored values of the brute-force cell of each point, row by row.')
+# ---- [strengthen-6] -------------------------------------------------------------------------------------------------
+EXTRA_MODULES = globals().get('EXTRA_MODULES', []) + ['EmsModel.Props.C05Runs']
+REQUIRED += ['Ems.C05.select_entry_local', 'Ems.C05.repeated_request_same_entry', 'Ems.C05.entry_eq_single_request']
+RULE += (' (f) every grid kind of every dataset is also asked for 3 structured index lists, and the face grid for 2 tracks '
+         'of points through select_points / extract_points / extract_dataframe (gen/c05_extra6.py; a function of the recipe '
+         'alone, no draw from the random stream): a run of consecutive cells, the run backwards, a stride, a track that '
+         'lingers in a cell and skips the next one (either way round), a run with one entry copied from its neighbour / '
+         'swapped / dropped / doubled, one cell n times, a walk that turns round; tracks carry a point inside each '
+         'visited cell and sometimes a miss.  A few more datasets are long in one direction (meshes of up to ~40 faces, '
+         'axes of up to 9 cells).  (g) file histories: a dataset is written to a netCDF file and opened from it '
+         '(encoding[source] set; loaded or left lazy), asked something (a point selection, polygons, strtree, or the '
+         'whole examination); then the dataset under test is made: the opened one with one or both grid axes reversed by '
+         'isel (same source, same size, other arrangement; ground truth = the polygons permuted the same way), or the '
+         'same path written again with a dataset of the same convention and size elsewhere / in another arrangement '
+         '(axis reversed, shifted, lat and lon exchanged, lattice origin moved or shear negated, faces renumbered, nodes '
+         'moved) and opened again, or the same file opened twice, or the rearranged dataset from another file (controls); '
+         'it is examined in full (a)-(c), (f) against its OWN ground truth, and the earlier dataset once more after it.')
+# ---- [/strengthen-6] ------------------------------------------------------------------------------------------------
 TRUSTED = ['xarray vectorised isel, Dataset.merge(join=inner/outer), pandas DataFrame.to_xarray']
 ASSUMPTIONS = ['only data variables are compared; coordinate variables of the result are xarray bookkeeping',
                'a drop/fill request in which no point hits is refused by the code (nothing to select); modelled as an error']
@@ -93,6 +120,8 @@ def examine(ctx, recipe, items) -> None:
     """One dataset object, one bound convention, and the whole sequence of calls of the check made on it.
     With a `history` in the recipe the dataset is edited in place part-way through (gen/c05_extra.py): every
     selection after the edit is judged against the dataset as it is when the call is made."""
+    if recipe.get('file_history'):          # [strengthen-6] several datasets that share a source file
+        return examine_file_history(ctx, recipe, items)
     built = G.build(recipe)
     c = G.bind(built)
     hist = recipe.get('history')
@@ -118,6 +147,43 @@ def examine(ctx, recipe, items) -> None:
     if asks and asks['at'] in ('mid', 'both'):
         built.extra.setdefault('asked', []).extend(H.ask(built, c, asks, 'mid'))
     examine_points(ctx, recipe, built, c, items)
+
+
+# ---- [strengthen-6] -------------------------------------------------------------------------------------------------
+def examine_file_history(ctx, recipe, items) -> None:
+    """Datasets that share a source file, in one process (gen/c05_extra6.py): the earlier dataset is opened from the
+    file and used; the dataset under test - derived from it, or opened from the same path after the file was written
+    again - is then examined in full against its own ground truth; the earlier one once more after it.
+    The requests are drawn from a stream that is a function of the recipe (the stream of the check is left alone,
+    and a replay plays the same calls)."""
+    fh = recipe['file_history']
+    keep = ctx.rng
+    ctx.rng = X6.recipe_rng(recipe, 'c05-file:')
+    try:
+        with X6.Workdir() as wd:
+            path = wd.path('model.nc')
+            first = wd.write_and_open(recipe, path, fh['lazy'])
+            c0 = G.bind(first)
+            ctx.count(f"file-history:{fh['kind']}:{fh['how']}")
+            ctx.count(f"file-history:first-asked:{fh['touch']}")
+            if fh['touch'] == 'examine':
+                examine_points(ctx, recipe, first, c0, items)
+            else:
+                first.extra['asked'] = [f"{fh['touch']} on the dataset first opened from the file: "
+                                        + X6.touch(first, c0, fh['touch'])]
+            second = X6.later_stage(wd, recipe, first, path)
+            second.extra['asked'] = [f"an earlier dataset of the same source file was asked {fh['touch']}; this one is "
+                                     f"{fh['kind']} ({fh['how']})"]
+            c1 = G.bind(second)
+            examine_indexes(ctx, recipe, second, c1, items)
+            examine_points(ctx, recipe, second, c1, items)
+            ctx.nontrivial((str(recipe), 'file-history'))
+            if fh['back']:
+                first.extra['asked'] = [f"a later dataset of the same source file ({fh['kind']}, {fh['how']}) was examined in between"]
+                examine_points(ctx, recipe, first, c0, items)
+    finally:
+        ctx.rng = keep
+# ---- [/strengthen-6] ------------------------------------------------------------------------------------------------
 
 
 def after(built) -> str:
@@ -216,11 +282,19 @@ def examine_indexes(ctx, recipe, built, c, items) -> None:
         size = int(np.prod(gshape))
         if size == 0:
             continue
-        for _ in range(2):
+        # [strengthen-6] rounds 2.. are the structured lists of the recipe (gen/c05_extra6.py), handled exactly like the
+        # random ones; whatever they draw comes from their own stream
+        walk_rng, walks = X6.walks_for(recipe, kind, size)
+        for round_ in range(2 + len(walks)):
+            rng = ctx.rng if round_ < 2 else walk_rng
             n = rng.randint(1, 5)
             lin = [rng.randrange(size) for _ in range(n)]
             if rng.random() < 0.4 and n > 1:
                 lin[rng.randrange(n)] = lin[0]           # a repeat
+            if round_ >= 2:
+                shape, lin = walks[round_ - 2]
+                n = len(lin)
+                ctx.count(f'select:structured:{shape}')
             comps = [[int(v) for v in np.unravel_index(k, gshape)] for k in lin]
             idim = rng.choice(['index', 'index', 'pt', 'sample'])
             idx_s = ';'.join(f"{kind}:{','.join(map(str, cc))}" for cc in comps)
@@ -271,6 +345,7 @@ def examine_indexes(ctx, recipe, built, c, items) -> None:
                         ctx.oracle_fail('select-wrong-values', {'recipe': recipe, 'kind': kind, 'indexes': comps, 'var': nm, 'entry': k},
                                         f'entry {k} of {nm} is {got.tolist()}, stored value at {cc} is {want.tolist()}')
                         break
+    rng = ctx.rng          # [strengthen-6] (back to the stream of the check)
     # ---- single index / single point: only the index dimension goes away ----------------------------
     for kind, (gdims, gshape) in built.grids.items():
         size = int(np.prod(gshape))
@@ -336,9 +411,13 @@ def examine_points(ctx, recipe, built, c, items) -> None:
         return
     xs = [p[0] for q in cells for p in q]
     ys = [p[1] for q in cells for p in q]
-    for _ in range(2):
+    # [strengthen-6] rounds 2.. are the tracks of the recipe (gen/c05_extra6.py: a point inside each cell of a structured
+    # walk over the cells), handled exactly like the random lists; whatever they draw comes from their own stream
+    track_rng, tracks = X6.tracks_for(recipe, kept)
+    for round_ in range(2 + len(tracks)):
+        rng = ctx.rng if round_ < 2 else track_rng
         pts = []
-        for _ in range(rng.randint(2, 6)):
+        for _ in range(rng.randint(2, 6) if round_ < 2 else 0):
             r = rng.random()
             q = rng.choice(cells)
             if r < 0.35 and len(q) == 4:
@@ -361,6 +440,9 @@ def examine_points(ctx, recipe, built, c, items) -> None:
             if rng.random() < 0.35:
                 more.append((x + rng.choice([-1, 1]) * eps, y + rng.choice([-1, 0, 1]) * eps))
         pts = more
+        if round_ >= 2:
+            pts = tracks[round_ - 2]
+            ctx.count('extract:track')
         pts = [p for p in pts if Fraction(float(p[0])) == p[0] and Fraction(float(p[1])) == p[1]]
         if not pts:
             continue
@@ -514,6 +596,25 @@ def run(ctx) -> None:
     for k in range(ctx.budget(25, 200)):
         recipe = make_recipe(ctx, k)
         ctx.guarded(lambda: examine(ctx, recipe, items), {'recipe': recipe})
+    # ---- [strengthen-6] file histories and grids that are long in one direction, from a stream of their own -----------
+    rng6 = random.Random(f'{ctx.seed}:{int(ctx.searching)}:c05-extra6')
+    for k in range(ctx.budget(10, 60)):
+        recipe = X6.random_file_recipe(rng6, k, ctx.tier)
+        ctx.guarded(lambda: examine(ctx, recipe, items), {'recipe': recipe})
+    for k in range(ctx.budget(8, 48)):
+        recipe = X6.random_long_recipe(rng6, k, ctx.tier)
+        ctx.count(f"long-grid:{recipe['conv']}")
+        keep, ctx.rng = ctx.rng, X6.recipe_rng(recipe, 'c05-long:')
+        try:
+            ctx.guarded(lambda: examine(ctx, recipe, items), {'recipe': recipe})
+        finally:
+            ctx.rng = keep
+    # ---- [/strengthen-6] -----------------------------------------------------------------------------------------------
+    # ---- [B8 selectsrc] the programs generated from the source text (harness/trans_selectsrc.py -> Gen/SelectSrc.lean), run by
+    # the driver op `selectsrc` on the requests of the first 150 `select` lines, must answer as emsarray did ----------------
+    items += [('selectsrc' + line[len('select'):], out, {**meta, 'op': 'selectsrc' + line[len('select'):]})
+              for line, out, meta in items if line.startswith('select ')][:150]
+    # ---- [/B8 selectsrc] -----------------------------------------------------------------------------------------------
     if ctx.searching and ctx.driver is None:
         ctx.evaluated(len(items))
         return
